@@ -26,7 +26,11 @@ def step (line : String) : String :=
     | some ps =>
       if ps.length ≠ n.toNat then "bad-op" else
       match chain 1 ps with
-      | some c => let (r, tr) := (c.run x).run []; s!"{r} | {showNats tr}"
+      | some c =>
+        -- x = -1 encodes the nil interface argument, which the first stage reads as 0;
+        -- the composed function is applied twice to the same argument: same result, same trace
+        let (r, tr) := (c.run (if x == -1 then 0 else x)).run []
+        s!"{r} | {showNats tr} || {r} | {showNats tr}"
       | none => "bad-op"
     | none => "bad-op"
   | _ => "bad-op"
